@@ -123,8 +123,10 @@ Theorem C20_abs_code : forall v,
 Proof. exact gabs_code. Qed.
 Print Assumptions C20_abs_code.
 
-(* Compare and Less agree with the built-in order *)
-Theorem C20_compare_less : forall t a b, in_range t a -> in_range t b ->
+(* Compare and Less agree with the built-in order.  The integer type t is irrelevant here: values are their own
+   mathematical value and Compare/Less depend on the order only, which is the order of Z for every type (the
+   result is an int / a bool, not a value of t), so there is no in_range hypothesis. *)
+Theorem C20_compare_less : forall t a b,
   icompare t a b = match a ?= b with Lt => -1 | Eq => 0 | Gt => 1 end /\
   (iless t a b = true <-> a < b) /\
   (icompare t a b = 0 <-> a = b) /\ (icompare t a b = -1 <-> a < b) /\ (icompare t a b = 1 <-> b < a).
